@@ -157,14 +157,105 @@ end Erbium.Generated.Dhcp
     write_if_changed(os.path.join(OUT, "Dhcp.lean"), out)
 
 
+CMPS = {">": "gt", ">=": "ge", "<": "lt", "<=": "le", "=": "eq", "==": "eq", "!=": "ne", "<>": "ne"}
+
+
+def cmpname(op):
+    return CMPS.get(op) if op else None
+
+
+def gen_pool():
+    pool = strip_comments(read(os.path.join(CORE, "dhcp/pool.rs")))
+    sql_cmp = r"(>=|<=|<>|!=|==|=|>|<)"
+    req = grab("pool.requestedInUseCmp", fn_body(pool, "select_requested_address"),
+               r"WHERE\s+expiry\s*" + sql_cmp + r"\s*\?1\s+AND\s+address\s*=\s*\?2", "pool.rs select_requested_address")
+    new = grab("pool.newInUseCmp", fn_body(pool, "select_new_address"),
+               r"WHERE\s+expiry\s*" + sql_cmp + r"\s*\?1\s+AND\s+address\s*=\s*\?2", "pool.rs select_new_address")
+    sel = fn_body(pool, "select_address")
+    own = grab("pool.ownCurrentCmp", sel,
+               r"WHERE\s+clientid\s*=\s*\?1\s+AND\s+expiry\s*" + sql_cmp + r"\s*\?2", "pool.rs select_address step 1")
+    order1 = grab("pool.step1Order", sel,
+                  r"AND\s+expiry\s*\S+\s*\?2\s+ORDER\s+BY\s+address\s*=\s*\?3\s+DESC\s*,\s*expiry\s+DESC", "pool.rs select_address step 1 ORDER BY",
+                  lambda m: True)
+    order2 = grab("pool.step2Order", sel,
+                  r"GROUP\s+BY\s+1\s+ORDER\s+BY\s+address\s*=\s*\?2\s+DESC\s*,\s*expire_time\s+DESC\s+LIMIT\s+1", "pool.rs select_address step 2 ORDER BY",
+                  lambda m: True)
+    met = fn_body(pool, "get_pool_metrics")
+    col = (r"(COALESCE\(|IFNULL\()?\s*SUM\(CASE\s+WHEN\s+expiry\s*" + sql_cmp +
+           r"\s*\?1\s+THEN\s+1\s+ELSE\s+0\s+END\)\s*(,\s*0\s*\))?\s*as\s+(\w+)")
+    mm = grab("pool.metricsSql", met, col + r"\s*,\s*" + col + r"\s+FROM\s+leases",
+              "pool.rs get_pool_metrics",
+              lambda m: (m.group(2), bool(m.group(1)) and bool(m.group(3)), m.group(4),
+                         m.group(6), bool(m.group(5)) and bool(m.group(7)), m.group(8)))
+    ret_order = grab("pool.metricsReturnOrder", met, r"Ok\(\(row\.get\(0\)\?\s*,\s*row\.get\(1\)\?\)\)", "pool.rs get_pool_metrics", lambda m: True)
+    # struct Pool { conn } : no volatile state besides the connection (C18 restart equivalence)
+    fields = grab("pool.structFields", pool, r"pub\s+struct\s+Pool\s*\{([^}]*)\}", "pool.rs struct Pool",
+                  lambda m: [f.split(":")[0].strip() for f in m.group(1).split(",") if f.strip()])
+    tx = grab("pool.setupDbTransactional", fn_body(pool, "setup_db"), r"(unchecked_transaction|transaction)\s*\(", "pool.rs setup_db",
+              lambda m: True)
+    if tx is None:
+        status["pool.setupDbTransactional"] = {"ok": True, "value": False, "where": "pool.rs setup_db"}
+        tx = False
+
+    def c(v):
+        n = cmpname(v)
+        return "." + n if n else ".bad"
+    first_cmp = mm[0] if mm else None
+    second_cmp = mm[3] if mm else None
+    coalesce = bool(mm and mm[1] and mm[4])
+    labels_ok = bool(mm and mm[2] == "active" and mm[5] == "expired" and ret_order)
+    out = f"""/- GENERATED by tools/extract.py from {REPO} — do not edit. -/
+namespace Erbium.Generated.Pool
+
+inductive Cmp where
+  | gt | ge | lt | le | eq | ne | bad
+deriving DecidableEq, Repr
+
+def Cmp.eval : Cmp → Nat → Nat → Bool
+  | .gt, a, b => decide (a > b)
+  | .ge, a, b => decide (a ≥ b)
+  | .lt, a, b => decide (a < b)
+  | .le, a, b => decide (a ≤ b)
+  | .eq, a, b => decide (a = b)
+  | .ne, a, b => decide (a ≠ b)
+  | .bad, _, _ => false
+
+/-- `WHERE expiry <cmp> ?1 AND address = ?2` in `select_requested_address` -/
+def requestedInUseCmp : Cmp := {c(req)}
+/-- same test in `select_new_address` -/
+def newInUseCmp : Cmp := {c(new)}
+/-- `WHERE clientid = ?1 AND expiry <cmp> ?2` (step 1 of `select_address`) -/
+def ownCurrentCmp : Cmp := {c(own)}
+/-- the two `ORDER BY address=? DESC, expiry DESC` clauses were found as expected -/
+def step1OrderOk : Bool := {boolean(order1)}
+def step2OrderOk : Bool := {boolean(order2)}
+/-- `get_pool_metrics`: comparison of the first / second SUM column, whether NULL is coalesced to 0,
+    and whether the columns are labelled (active, expired) in that order -/
+def metricsFirstCmp : Cmp := {c(first_cmp)}
+def metricsSecondCmp : Cmp := {c(second_cmp)}
+def metricsCoalesce : Bool := {boolean(coalesce)}
+def metricsLabelsActiveExpired : Bool := {boolean(labels_ok)}
+/-- number of fields of `struct Pool` (1 = only the connection: no volatile state) -/
+def poolStructFields : Nat := {len(fields) if fields else 0}
+/-- every migration step and its version bump run inside one transaction -/
+def setupDbTransactional : Bool := {boolean(tx)}
+
+end Erbium.Generated.Pool
+"""
+    write_if_changed(os.path.join(OUT, "Pool.lean"), out)
+
+
 def main():
     os.makedirs(OUT, exist_ok=True)
-    gens = [gen_dhcp]
+    gens = [gen_dhcp, gen_pool]
     for g in gens:
         try:
             g()
-        except Exception as e:  # fail closed: record, keep going so that other properties still run
+        except Exception as e:  # fail closed: record, never keep a stale file
             status["generator." + g.__name__] = {"ok": False, "value": repr(e), "where": g.__name__}
+            stale = os.path.join(OUT, g.__name__[4:].capitalize() + ".lean")
+            if os.path.exists(stale):
+                os.unlink(stale)
     write_if_changed(os.path.join(OUT, "STATUS.json"), json.dumps(status, indent=1, sort_keys=True) + "\n")
     bad = [k for k, v in status.items() if not v["ok"]]
     if bad:
